@@ -233,10 +233,8 @@ namespace c15
     // model understands, otherwise the screen clause would be judged on a guess).
     struct Screen
     {
-        enum
-        {
-            W = 100
-        };
+        int W; // columns; the terminal layer positions with relative moves inside one row (no wrapping), so the
+               // model is simply made wider than the longest prompt + line of the case
         std::vector<std::string> rows; // pool: rows[0..nrows) are live, the others are blank and reused
         std::vector<int> hi;           // hi[i]: every cell of row i at a column >= hi[i] is blank
         int nrows = 1;
@@ -246,7 +244,7 @@ namespace c15
         bool have_param = false;
         std::string unmodelled; // first byte sequence the model does not know
         bool overflow = false;
-        Screen()
+        explicit Screen(int width = 100) : W(width)
         {
             rows.emplace_back((size_t)W, ' ');
             hi.push_back(0);
@@ -419,11 +417,14 @@ namespace c15
     {
         unsigned cap, H;
         const char *prompt; // nullptr = leave the default "$ "
+        int width = 100;    // columns of the screen model
         const char *prompt_text() const { return prompt ? prompt : "$ "; }
     };
 
     // ------------------------------------------------------------------------------------------------ terminal driver
     // Term adapter: Term(const Cfg&, Sink*), void key(int), unsigned len(), unsigned cursor(), const char* data(),
+    //               int linecpy(char *dst, size_t size)   readline_linecpy / readline::linecpy (NUL-terminating copy-out)
+    //               const char *history(int k)            readline_history_pointer / readline::history_pointer (k-th most recent)
     //               static const char* impl()  ("c" / "cxx")
     static inline void note_state(unsigned cap, unsigned H, unsigned len, unsigned cur, unsigned hp)
     {
@@ -457,18 +458,83 @@ namespace c15
         RefEditor ref;
         Screen scr;
         size_t replayed = 0;
-        std::string fed; // bytes so far (witness)
+        std::string fed;    // bytes so far (witness)
+        std::string script; // long cases: readable description used in the witness instead of every byte
+        unsigned char *pool; // destination pool for the copy-out accessor: 8 canary bytes + cap + 2, exactly allocated
         Act prev = A_START;
         const char *last_nl = "none"; // what the reference did with the most recent CR/LF byte before the current one
         uint64_t steps = 0;
 
-        explicit Runner(const Cfg &c) : cfg(c), ref(c.cap, c.H) {}
+        explicit Runner(const Cfg &c) : cfg(c), ref(c.cap, c.H), scr(c.width), pool((unsigned char *)malloc(8 + c.cap + 2)) {}
+        ~Runner() { free(pool); }
+        Runner(const Runner &) = delete;
 
         std::string witness() const
         {
             char t[96];
             snprintf(t, sizeof t, "impl=%s cap=%u hist=%u prompt=\"%s\" keys=", Term::impl(), cfg.cap, cfg.H, cfg.prompt_text());
-            return std::string(t) + show_bytes(fed);
+            if (script.empty())
+                return std::string(t) + show_bytes(fed);
+            return std::string(t) + script + " ...last bytes " + show_bytes(fed.size() > 24 ? fed.substr(fed.size() - 24) : fed);
+        }
+        // ---- copy-out / terminating accessors, driven after every key
+        // linecpy(dst, size): at most size-1 characters + NUL, returns the number copied, nothing outside dst[0..size).
+        // dst ends exactly at the end of a heap block (ASan red zone behind dst[size-1]), 8 canary bytes in front.
+        void probe_linecpy(size_t size)
+        {
+            size_t total = 8 + cfg.cap + 2;
+            unsigned char *dst = pool + total - size;
+            memset(dst - 8, 0xA5, 8 + size);
+            size_t len = ref.line.size(), want = len < size - 1 ? len : size - 1;
+            const char *cls = size < len ? "size<len" : size == len ? "size==len" : size == len + 1 ? "size==len+1" : "size>len+1";
+            int r = term->linecpy((char *)dst, size);
+            char key[vf::KEY_LEN], d[160];
+            const char *what = nullptr;
+            if (r != (int)want)
+                what = "return";
+            else if (memcmp(dst, ref.line.data(), want) != 0 || dst[want] != 0)
+                what = "content";
+            else
+                for (int k = 1; k <= 8; k++)
+                    if (dst[-k] != 0xA5)
+                        what = "write-before-destination";
+            if (what)
+            {
+                snprintf(key, sizeof key, "%s:linecpy:%s:%s", Term::impl(), what, cls);
+                snprintf(d, sizeof d, "linecpy(dst, %zu) with len=%zu returned %d, reference %zu", size, len, r, want);
+                vf::fail(key, "%s | %s", witness().c_str(), d);
+            }
+            VF_OK("linecpy: min(len, size-1) characters + NUL inside the destination, return value");
+            if (size == len)
+                VF_OK("linecpy: destination size == line length");
+        }
+        void check_accessors()
+        {
+            size_t len = ref.line.size();
+            if (len <= 8)
+                for (size_t sz = 1; sz <= len + 3; sz++)
+                    probe_linecpy(sz);
+            else
+            {
+                const size_t some[] = {1, 2, len - 1, len, len + 1, len + 2, len + 3, 3 + (size_t)(steps * 7919u) % (len - 4)};
+                for (size_t sz : some)
+                    probe_linecpy(sz);
+            }
+            // history accessor: k-th most recent entry, NUL-terminated inside its slot of cap bytes
+            for (unsigned k = 1; k <= cfg.H; k++)
+            {
+                const char *p = term->history((int)k);
+                size_t n = strnlen(p, cfg.cap); // reads at most the slot: the slot is part of the exact history block
+                const std::string *want = k <= ref.hist.size() ? &ref.hist[k - 1] : nullptr;
+                size_t wn = want ? want->size() : 0;
+                if (n >= cfg.cap || n != wn || (wn && memcmp(p, want->data(), wn) != 0))
+                {
+                    char key[vf::KEY_LEN];
+                    snprintf(key, sizeof key, "%s:history:accessor:%s", Term::impl(), n >= cfg.cap ? "unterminated" : "entry");
+                    vf::fail(key, "%s | history_pointer(%u) = \"%s\", reference \"%s\"", witness().c_str(), k, vf::esc(p, n).c_str(), want ? want->c_str() : "");
+                }
+            }
+            VF_OK("history accessor: k-th most recent entry == reference ring, terminated inside its slot");
         }
         [[noreturn]] void bad(const char *monitor, Act a, bool cursor_mid, bool with_nl, const std::string &detail)
         {
@@ -533,7 +599,7 @@ namespace c15
             steps = 0;
             term.emplace(cfg, &sink);
             if (vf::verbose())
-                printf("  terminal case: impl=%s cap=%u hist=%u prompt=\"%s\"\n", Term::impl(), cfg.cap, cfg.H, cfg.prompt_text());
+                printf("  terminal case: impl=%s cap=%u hist=%u prompt=\"%s\" %s\n", Term::impl(), cfg.cap, cfg.H, cfg.prompt_text(), script.c_str());
             term->key(-1);
             check_bounds(A_START);
             check_screen(A_START, false);
@@ -543,9 +609,10 @@ namespace c15
         {
             fed += (char)b;
             steps++;
-            if (vf::verbose())
+            if (vf::verbose() && script.empty())
                 printf("    byte %s%s\n", show_bytes(std::string(1, (char)b)).c_str(), flush ? "" : " (no flush)");
             bool cursor_mid = ref.cur < ref.line.size();
+            unsigned cursor_before_byte = ref.cur;
             term->key(b);
             Act a = ref.feed(b);
             count_act(a);
@@ -597,6 +664,11 @@ namespace c15
                     if (a == A_INSERT_FULL)
                         VF_OK("printable typed into a full line ignored");
                     check_screen(a, cursor_mid);
+                    check_accessors();
+                    if (len >= 256 && cursor_mid && ref.line.size() - ref.cur >= 256)
+                        VF_OK("edit with >= 256 characters right of the cursor");
+                    if (recall && cursor_before_byte >= 256)
+                        VF_OK("history recall with the cursor at column >= 256");
                     note_state(cfg.cap, cfg.H, len, cur, ref.histpos);
                 }
             }
@@ -756,6 +828,196 @@ namespace c15
         VF_MAX("lines executed in one random case", R.ref.executed.size());
         if (idx < 2 && vf::want_sample())
             vf::sample("random%s: %s", noflush ? " (no newdata(-1) between keys)" : "", R.witness().substr(0, 400).c_str());
+    }
+
+    // -------------------------------------------------------------- suite: long lines (cursor-back moves of >= 256 columns)
+    // The echo positions the cursor with ESC[<n>D where n is the number of characters right of the cursor (insert,
+    // backspace, delete) or the cursor column (history recall).  Capacities around 256 and far above, lines that fill
+    // them, the cursor moved 255 / 256 / 257 / all columns to the left, then edits and recalls.  Screen model 2048
+    // columns wide (the terminal layer never relies on wrapping).  Scenarios 0..5 are scripted (the first three
+    // variants of each do not depend on the seed), 6..7 are random segment mixes.
+    static const unsigned LCAPS[6] = {64, 255, 256, 257, 300, 1000};
+    static const int LSCEN = 8;
+    static inline uint64_t long_count() { return 6 * LSCEN * (vf::thorough() ? 40 : 3); }
+    struct LongScript
+    {
+        std::string bytes, text;
+        unsigned typed = 0;
+        void rep(Key k, unsigned n)
+        {
+            if (!n)
+                return;
+            for (unsigned i = 0; i < n; i++)
+                bytes += KEY_BYTES[k];
+            char t[48];
+            snprintf(t, sizeof t, "%s*%u ", KEY_NAME[k], n);
+            text += t;
+        }
+        void type(unsigned n)
+        {
+            if (!n)
+                return;
+            for (unsigned i = 0; i < n; i++, typed++)
+                bytes += (char)('a' + typed % 26);
+            char t[48];
+            snprintf(t, sizeof t, "type(%u) ", n);
+            text += t;
+        }
+        void ch(char c)
+        {
+            bytes += c;
+            text += c;
+            text += ' ';
+        }
+    };
+    template <class Term> static void long_run(uint64_t idx)
+    {
+        char tag[40];
+        snprintf(tag, sizeof tag, "%s:vterm-long", Term::impl());
+        vf::cls(tag);
+        vf::Rng r(vf::seed(), 0x10F6, idx);
+        unsigned cap = LCAPS[idx % 6];
+        int sc = (int)((idx / 6) % LSCEN);
+        unsigned var = (unsigned)(idx / (6 * LSCEN));
+        static const char *const prompts[] = {nullptr, "#>", "", "igris>>", "a-rather-long-prompt-of-37-columns:~$ "};
+        Cfg cfg{cap, 1 + (unsigned)((idx / 6 + var) % 3), prompts[(idx / 6 + 2 * var) % 5], 2048};
+        const unsigned full = cap - 1;
+        auto lim = [&](unsigned v, unsigned hi) { return v < hi ? v : hi; };
+        // line length and cursor-back distance: seed-independent for the first three variants
+        unsigned L = var == 0 ? full : var == 1 ? lim(257, full) : var == 2 ? lim(260, full) : (unsigned)r.range((int)(cap / 2), (int)full);
+        auto move = [&](unsigned len) -> unsigned {
+            if (var == 0)
+                return lim(256, len);
+            if (var == 1)
+                return len;
+            if (var == 2)
+                return lim(257, len);
+            static const unsigned pts[] = {255, 256, 257, 511, 512};
+            return r.chance(1, 2) ? lim(r.pick(pts), len) : (unsigned)r.range(0, (int)len);
+        };
+        LongScript S;
+        switch (sc)
+        {
+        case 0: // edits with a long tail right of the cursor (one free cell so that the insert is taken)
+            L = lim(L, full - 1);
+            S.type(L);
+            S.rep(K_LEFT, move(L));
+            S.ch('X');
+            S.rep(K_BS, 1);
+            S.rep(K_DEL, 1);
+            S.rep(K_RIGHT, 3);
+            S.ch('Y');
+            S.rep(K_CR, 1);
+            break;
+        case 1: // recall with the cursor at the end of a long line, then from the middle
+            S.type(L);
+            S.rep(K_CR, 1);
+            S.rep(K_UP, 2);
+            S.rep(K_DOWN, 2);
+            S.rep(K_UP, 1);
+            S.rep(K_LEFT, L - move(L));
+            S.rep(K_UP, 1);
+            S.rep(K_DOWN, 1);
+            S.rep(K_UP, 1);
+            S.rep(K_DOWN, 2);
+            break;
+        case 2: // backspace / delete runs inside a long line, execute, recall, delete again
+            S.type(L);
+            S.rep(K_LEFT, move(L));
+            S.rep(K_BS, 3);
+            S.rep(K_DEL, 3);
+            S.ch('Y');
+            S.rep(K_CR, 1);
+            S.rep(K_UP, 1);
+            S.rep(K_LEFT, move(L > 6 ? L - 5 : 0));
+            S.rep(K_DEL, 1);
+            S.rep(K_BS, 1);
+            S.rep(K_LF, 1);
+            break;
+        case 3: // long and short history entries, recall long over short and short over long
+            S.type(L);
+            S.rep(K_CR, 1);
+            S.type(3);
+            S.rep(K_CR, 1);
+            S.rep(K_UP, 2);
+            S.rep(K_LEFT, move(L));
+            S.rep(K_DOWN, 1);
+            S.rep(K_UP, 1);
+            S.ch('Z');
+            S.rep(K_LEFT, 1);
+            S.rep(K_DOWN, 2);
+            S.rep(K_UP, 3);
+            S.rep(K_CR, 1);
+            break;
+        case 4: // ^C on a long line, home by repeated LEFT, insert at column 0, run to the end again
+            S.type(L);
+            S.rep(K_CTRLC, 1);
+            L = lim(L, full - 3);
+            S.type(L);
+            S.rep(K_LEFT, L);
+            S.type(2);
+            S.rep(K_DEL, 2);
+            S.rep(K_RIGHT, move(L));
+            S.ch('Q');
+            S.rep(K_CR, 1);
+            break;
+        case 5: // more characters than the line holds, rejected inserts in the middle of a full line
+            S.type(cap + 5);
+            S.rep(K_LEFT, move(full));
+            S.type(3);
+            S.rep(K_BS, 1);
+            S.type(2);
+            S.rep(K_DEL, 1);
+            S.rep(K_CR, 1);
+            S.rep(K_UP, 1);
+            S.rep(K_LEFT, move(full));
+            S.rep(K_UP, 1);
+            break;
+        default: // random segments
+        {
+            int nseg = r.range(8, 14);
+            unsigned len_guess = 0;
+            for (int i = 0; i < nseg; i++)
+            {
+                switch (r.below(8))
+                {
+                case 0:
+                case 1:
+                {
+                    unsigned n = r.chance(1, 2) ? cap : (unsigned)r.range(1, (int)cap);
+                    S.type(n);
+                    len_guess = lim(len_guess + n, full);
+                    break;
+                }
+                case 2:
+                case 3:
+                    S.rep(K_LEFT, move(len_guess));
+                    break;
+                case 4:
+                    S.rep(K_RIGHT, (unsigned)r.range(1, 300));
+                    break;
+                case 5:
+                    S.rep(r.chance(1, 2) ? K_BS : K_DEL, (unsigned)r.range(1, 4));
+                    break;
+                case 6:
+                    S.rep(r.chance(2, 3) ? K_UP : K_DOWN, (unsigned)r.range(1, 3));
+                    len_guess = full;
+                    break;
+                default:
+                    S.rep(r.chance(1, 4) ? K_CTRLC : r.chance(1, 2) ? K_CR : K_LF, 1);
+                    len_guess = 0;
+                }
+            }
+        }
+        }
+        Runner<Term> R(cfg);
+        R.script = S.text;
+        R.start();
+        run_bytes(R, S.bytes);
+        vf::count_case(vf::hash_bytes(S.bytes.data(), S.bytes.size(), vf::mix(cap * 16 + cfg.H, idx)), true);
+        VF_MAX("longest line in a long-line case", R.ref.executed.empty() ? R.ref.line.size() : R.ref.executed[0].size());
+        if (sc == 1 && cap == 300 && var == 0 && vf::want_sample())
+            vf::sample("long line: %s", R.witness().c_str());
     }
 
     // ------------------------------------------------------------------------------------------------ sline driven directly
@@ -944,6 +1206,20 @@ namespace c15
                 if (p[line.size()] != '\0' || strlen(p) != line.size())
                     bad("getline:terminator", nm, "no NUL at buf[len]");
                 VF_OK("sline: getline NUL-terminates at buf[len] inside the buffer");
+                {
+                    // comparison accessor on exactly sized C strings: equal to the line itself, not to a longer
+                    // string with the line as prefix, not to a proper prefix of the line
+                    vf::ExactStr same(line), longer(line + "q");
+                    if (!sl.equal(same.cc()) || sl.equal(longer.cc()))
+                        bad("equal", nm, "sline_equal(line) false or sline_equal(line + \"q\") true");
+                    if (!line.empty())
+                    {
+                        vf::ExactStr prefix(line.substr(0, line.size() - 1));
+                        if (sl.equal(prefix.cc()))
+                            bad("equal", nm, "sline_equal(proper prefix) true");
+                    }
+                    VF_OK("sline: equal() accepts exactly the line");
+                }
                 break;
             }
             default:
@@ -1021,7 +1297,12 @@ namespace c15
                               "printable typed into a full line ignored", "sline: 0 <= cursor <= len < cap after every operation",
                               "sline: line and cursor == reference", "sline: bulk insert longer than the room stays inside the line",
                               "sline: bulk insert that fits is taken completely", "sline: putchar into a full line rejected",
-                              "sline: getline NUL-terminates at buf[len] inside the buffer", "exhaustive batch (one configuration and prefix, all continuations of 3 keys)"})
+                              "sline: getline NUL-terminates at buf[len] inside the buffer", "sline: equal() accepts exactly the line",
+                              "linecpy: min(len, size-1) characters + NUL inside the destination, return value",
+                              "linecpy: destination size == line length",
+                              "history accessor: k-th most recent entry == reference ring, terminated inside its slot",
+                              "edit with >= 256 characters right of the cursor", "history recall with the cursor at column >= 256",
+                              "exhaustive batch (one configuration and prefix, all continuations of 3 keys)"})
             vf::require(c);
         // every reference action must have been driven
         for (int a = A_INSERT; a < A_NACTS; a++)
